@@ -10,7 +10,7 @@ use serde_json::json;
 use crate::cases::CaseSink;
 use crate::pipe::{self, CrashOutcome, Deploy, JLocal, JShip, JVar, Mode, Op1, Pipe, Repl, P};
 use crate::props::c01::emit;
-use crate::props::link::{drive_end, lcase_term, link_script, Strat};
+use crate::props::link::{drive_end, lcase_term, link_script, Clock, LMode, Strat};
 use crate::rng::Rng;
 use crate::Opts;
 
@@ -19,6 +19,33 @@ fn big_data(rng: &mut Rng, n: u64) -> Vec<P> {
 }
 
 // ---------------------------------------------------------------- C04
+/// The execution graph the real scheduler derives for an acyclic pipeline on `local(par)`,
+/// as a Coq `gdump` (C04: premise `dag_ok` of the network theorems).
+pub fn dag_case(sink: &mut CaseSink, p: &Pipe, par: u64) {
+    let p2 = p.clone();
+    let r = crate::script::catch(move || {
+        let env = StreamContext::new(RuntimeConfig::local(par).unwrap());
+        pipe::build(&env, &p2, BatchMode::fixed(1024)).for_each(|_| {});
+        env.verif_execution_graph()
+    });
+    let d = match r {
+        Ok(d) => d,
+        Err(_) => { sink.count("dag_plan_rejected_by_api"); return; }
+    };
+    let n = |x: u64| format!("{}%nat", x);
+    let mut nodes: Vec<(u64, u64)> = d.blocks.iter().flat_map(|b| b.replicas.iter().map(|(c, _)| (c.0, c.2))).collect();
+    nodes.sort();
+    let nodes_s: Vec<String> = nodes.iter().map(|(b, r)| format!("({}, {})", n(*b), n(*r))).collect();
+    let edges_s: Vec<String> = d.edges.iter().map(|(f, t, _)| format!("({}, {})", n(*f), n(*t))).collect();
+    let links_s: Vec<String> = d.links.iter().map(|(f, t, _)| format!("(({}, {}), ({}, {}))", n(f.0), n(f.2), n(t.0), n(t.2))).collect();
+    let term = format!("(KDag (Build_gdump [{}] [{}] [{}]))", nodes_s.join("; "), edges_s.join("; "), links_s.join("; "));
+    sink.count("dag_graph");
+    sink.count_n("dag_replicas", nodes.len() as u64);
+    sink.push(term, json!({"kind": "execution graph of an acyclic job on one host", "pipeline": p.coq(), "parallelism": par,
+        "blocks": format!("{:?}", d.blocks.iter().map(|b| (b.id, b.replicas.len())).collect::<Vec<_>>()), "edges": format!("{:?}", d.edges), "links": d.links.len()}),
+        nodes.len() >= 4 && d.edges.len() >= 2);
+}
+
 pub fn generate_c04(opts: &Opts, sink: &mut CaseSink) {
     let mut rng = Rng::new(opts.seed);
     let n = (if opts.thorough { 400 } else { 36 }) / opts.scale;
@@ -41,9 +68,23 @@ pub fn generate_c04(opts: &Opts, sink: &mut CaseSink) {
             (pipe::random_deploy(&mut rng), pipe::random_mode(&mut rng)),
         ];
         emit(sink, &p, &configs, watchdog);
+        // the execution graph of the same job, as premise of the network theorems
+        if !p.has_loop() {
+            sink.wrap = None;
+            dag_case(sink, &p, rng.range(1, 6) as u64);
+            sink.wrap = Some(("KJob".into(), "C01".into()));
+        }
+    }
+    // more graphs: random acyclic pipelines, several parallelisms each
+    sink.wrap = None;
+    for _ in 0..(if opts.thorough { 300 } else { 40 }) {
+        let p = pipe::random_pipe(&mut rng, 2);
+        if !p.has_loop() {
+            dag_case(sink, &p, rng.range(1, 8) as u64);
+        }
     }
 }
-pub const RULE_C04: &str = "the engineered two-host hash join of known finding F13 (2 + 20 cores, fixed(2) batches; thorough: also its control without the early flush and a 2 + 14 core layout), then whole jobs on the real engine: empty and tiny inputs, inputs of 120..400 elements with batch size 1/3 (more than the total channel capacity: real back-pressure), split diamonds closed by merge and by outer join, broadcast joins, merges with an empty side, replay loops with internal shuffles, plus random pipelines; local 1..8 and 2..3-host deployments; watchdog 90 s. A run counts as good only if every host returned, exactly one sink handle held a result and the result is complete. Non-trivial: >=2 input elements and >=2 runs; distinct = distinct case terms";
+pub const RULE_C04: &str = "the engineered two-host hash join of known finding F13 (2 + 20 cores, fixed(2) batches; thorough: also its control without the early flush and a 2 + 14 core layout), then whole jobs on the real engine: empty and tiny inputs, inputs of 120..400 elements with batch size 1/3 (more than the total channel capacity: real back-pressure), split diamonds closed by merge and by outer join, broadcast joins, merges with an empty side, replay loops with internal shuffles, plus random pipelines; local 1..8 and 2..3-host deployments; watchdog 90 s; for every acyclic pipeline and 40 (thorough 300) further random ones the execution graph derived by the real scheduler on local(1..8), checked against dag_okb (premise of C04_dag_*). A run counts as good only if every host returned, exactly one sink handle held a result and the result is complete. Non-trivial: >=2 input elements and >=2 runs; distinct = distinct case terms";
 
 // ---------------------------------------------------------------- C10
 pub fn generate_c10(opts: &Opts, sink: &mut CaseSink) {
@@ -73,6 +114,25 @@ pub fn generate_c10(opts: &Opts, sink: &mut CaseSink) {
         ];
         emit(sink, &p, &configs, watchdog);
     }
+    // nested loops whose inner body reads the INNER state: they must restart from the initial
+    // state in every outer round, on every replica
+    for i in 0..(if opts.thorough { 40 } else { 6 }) {
+        let size = *rng.pick(&[3u64, 10, 40]);
+        let src = Pipe::Src(true, big_data(&mut rng, size));
+        let mut inner = vec![Op1::AddState];
+        if i % 2 == 1 { inner.insert(rng.below(2) as usize, Op1::Shuffle); }
+        if i % 3 == 2 { inner.push(Op1::GroupBySum); }
+        let nested = Op1::Nested(rng.range(2, 3), *rng.pick(&[5_000i64, 1_000_000_000_000]), inner);
+        let mut body = vec![nested];
+        if i % 4 == 3 { body.insert(0, Op1::AddState); }
+        let p = Pipe::Replay(Box::new(src), rng.range(2, 4), 1_000_000_000_000, body);
+        let configs = vec![
+            (Deploy::Local(1), Mode::Fixed(1024)),
+            (Deploy::Local(rng.range(2, 6) as u64), pipe::random_mode(&mut rng)),
+            (Deploy::Remote(vec![2, 1]), pipe::random_mode(&mut rng)),
+        ];
+        emit(sink, &p, &configs, watchdog);
+    }
     // nested loops whose inner body, behind a shuffle, reads the OUTER loop's state: right on
     // one host, possibly stale on several (known finding F12) — several multi-host runs each
     for i in 0..(if opts.thorough { 6 } else { 2 }) {
@@ -87,7 +147,7 @@ pub fn generate_c10(opts: &Opts, sink: &mut CaseSink) {
         emit(sink, &p, &configs, watchdog);
     }
 }
-pub const RULE_C10: &str = "replay (75%) and iterate (25%) loops on the real engine: bodies that add the loop state to every value plus random maps / filters / flat_maps / shuffles / keyed aggregations and, for replay, nested replay loops (a quarter of them reading the enclosing loop's state in the inner body, plus dedicated cases of that shape run six times on 3 hosts); bounds 0..6, stop conditions on the state (30 .. never), inputs of 0..120 elements; each under local(1), local(2..8) and a 2..3-host deployment with random batch modes. Non-trivial: >=2 input elements; distinct = distinct case terms";
+pub const RULE_C10: &str = "replay (75%) and iterate (25%) loops on the real engine: bodies that add the loop state to every value plus random maps / filters / flat_maps / shuffles / keyed aggregations and, for replay, nested replay loops (half of them reading their own loop state in the inner body — plus dedicated cases of that shape with 2..4 outer rounds —, a quarter of them reading the enclosing loop's state in the inner body, plus dedicated cases of that shape run six times on 3 hosts); bounds 0..6, stop conditions on the state (30 .. never), inputs of 0..120 elements; each under local(1), local(2..8) and a 2..3-host deployment with random batch modes. Non-trivial: >=2 input elements; distinct = distinct case terms";
 
 // ---------------------------------------------------------------- C18
 fn measure_delay(depth: usize, delay_ms: u64) -> (u64, bool) {
@@ -148,12 +208,13 @@ pub fn generate_c18(opts: &Opts, sink: &mut CaseSink) {
     for _ in 0..n {
         let strat = *rng.pick(&[Strat::GroupBy, Strat::Random, Strat::All, Strat::OnlyOne]);
         let blocks: Vec<u64> = if strat == Strat::OnlyOne { vec![1] } else { (0..rng.range(1, 2)).map(|_| rng.range(1, 4) as u64).collect() };
-        let fixed = *rng.pick(&[None, Some(1usize), Some(4), Some(1024)]);
+        let fixed = LMode::random(&mut rng);
         let script = link_script(&mut rng);
-        let mode = match fixed { Some(k) => BatchMode::fixed(k), None => BatchMode::single() };
-        let recv = drive_end(strat, mode, &blocks, script.clone()).unwrap_or_else(|m| { eprintln!("C18 End: {m}"); blocks.iter().map(|k| vec![vec![]; *k as usize]).collect() });
+        let mode = fixed.batch_mode();
+        let clock = Clock::random(&mut rng, script.len());
+        let recv = drive_end(strat, mode, &blocks, script.clone(), &clock).unwrap_or_else(|m| { eprintln!("C18 End: {m}"); blocks.iter().map(|k| vec![vec![]; *k as usize]).collect() });
         sink.count("round_end_flush");
-        sink.push(format!("(CFlush {})", lcase_term(strat, fixed, &blocks, &script, &recv)),
+        sink.push(format!("(CFlush {})", lcase_term(strat, fixed, &blocks, &script, &recv, &clock)),
                   json!({"kind": "flush at round end / idleness", "strategy": format!("{:?}", strat), "batch": format!("{:?}", fixed), "input": format!("{:?}", script), "received": format!("{:?}", recv)}),
                   script.iter().filter(|e| matches!(e, E::Item(_) | E::Timestamped(_, _))).count() >= 3);
     }
